@@ -411,12 +411,33 @@ func compareOracle(rep *Report, pool *DriverPool, c interface{}, s Setting, data
 		if len(ds) != len(obs.Dests) {
 			diff = fmt.Sprintf("model has %d destinations, implementation %d", len(ds), len(obs.Dests))
 		} else {
+			// a destination left without Flush or Close (abandoned by Reset, or the history simply
+			// stops) holds whatever whole chunks the packer had handed over: the vector packers of
+			// levels 3/4 keep up to a word more in their bit buffer than the portable one, so there the
+			// two outputs must agree on their common prefix and differ in length by at most 8 bytes
+			clean := make([]bool, 0, len(ds))
+			last := ""
+			for _, op := range ops {
+				if op.K == "r" {
+					clean = append(clean, last == "f" || last == "c")
+					last = ""
+					continue
+				}
+				last = op.K
+			}
+			clean = append(clean, last == "f" || last == "c")
 			for d := range ds {
 				mb := unhex(ds[d])
-				if !bytes.Equal(mb, obs.Bytes(d)) {
-					diff = fmt.Sprintf("destination %d: bytes differ at offset %d (model %d bytes, implementation %d bytes)", d, firstDiff(mb, obs.Bytes(d)), len(mb), len(obs.Bytes(d)))
-					break
+				ib := obs.Bytes(d)
+				if bytes.Equal(mb, ib) {
+					continue
 				}
+				if d < len(clean) && !clean[d] && (isPrefix(mb, ib) || isPrefix(ib, mb)) && absInt(len(mb)-len(ib)) <= 8 {
+					rep.Count("oracle:abandoned-destination-tail-differs")
+					continue
+				}
+				diff = fmt.Sprintf("destination %d: bytes differ at offset %d (model %d bytes, implementation %d bytes)", d, firstDiff(mb, ib), len(mb), len(ib))
+				break
 			}
 		}
 	}
